@@ -231,6 +231,8 @@ pub struct Ctx {
     pub max_shrink_iters: u32,
     pub replay_path: Option<String>,
     pub unconfirmed_timeouts: u32,
+    /// shards that lost their process to a per-case timeout that did not reproduce and were run again
+    pub slow_shards_rerun: u32,
     start: Instant,
 }
 
@@ -360,6 +362,7 @@ impl Ctx {
             max_shrink_iters: 3000,
             replay_path: None,
             unconfirmed_timeouts: 0,
+            slow_shards_rerun: 0,
             start: Instant::now(),
         }
     }
@@ -663,8 +666,41 @@ impl Ctx {
                         hang_confirmed = true;
                         results.push((Cov::new(), Some((case_v, f)), vec![]));
                     } else {
-                        eprintln!("INFRASTRUCTURE: a case of section {name} exceeded its time limit once but not when re-run alone (unconfirmed timeout)");
-                        self.unconfirmed_timeouts += 1;
+                        // The case returns when run alone: the machine was busy. The shard's other
+                        // cases were lost with its process, so the whole shard is run again, alone
+                        // and with four times the limit; only if that fails too is the run
+                        // inconclusive (status 2).
+                        eprintln!("NOTE: a case of section {name} exceeded its time limit once but not when re-run alone (busy machine?); re-running shard {sh} with 4x the limit");
+                        let n = per + if (sh as u64) < (extra as u64) { 1 } else { 0 };
+                        let again = std::process::Command::new(&exe)
+                            .arg(&self.id)
+                            .arg("--tier")
+                            .arg(self.tier.name())
+                            .arg("--shard")
+                            .arg(name)
+                            .arg(sh.to_string())
+                            .arg(n.to_string())
+                            .env("VERIF_SEED", self.seed.to_string())
+                            .env("VERIF_DIR", &self.verif_dir)
+                            .env("VERIF_TIMEOUT_SCALE", "4")
+                            .env("RAYON_NUM_THREADS", if self.use_pool_thread { "1".to_string() } else { self.plain_pool_threads.to_string() })
+                            .stdin(std::process::Stdio::null())
+                            .stderr(std::process::Stdio::inherit())
+                            .output();
+                        let parsed = again.ok().and_then(|o| {
+                            let t = String::from_utf8_lossy(&o.stdout).to_string();
+                            t.lines().find(|l| l.starts_with("SHARD-RESULT ")).and_then(|l| serde_json::from_str::<ShardResult>(&l["SHARD-RESULT ".len()..]).ok())
+                        });
+                        match parsed {
+                            Some(r) => {
+                                self.slow_shards_rerun += 1;
+                                results.push((r.cov, r.fail, r.known_seen));
+                            }
+                            None => {
+                                eprintln!("INFRASTRUCTURE: shard {sh} of section {name} did not finish within 4x the per-case limit either (unconfirmed timeout)");
+                                self.unconfirmed_timeouts += 1;
+                            }
+                        }
                     }
                     continue;
                 }
@@ -765,6 +801,8 @@ impl Ctx {
                 "excluded_known_finding_cases": excluded,
                 "sections": sections,
                 "exhaustive": false,
+                "shards_rerun_after_unreproduced_timeout": self.slow_shards_rerun,
+                "unconfirmed_timeouts": self.unconfirmed_timeouts,
             },
             "assumptions": self.assumptions,
             "wall_s": self.start.elapsed().as_secs_f64(),
